@@ -157,7 +157,9 @@ func (cons *VesaFbConsole) DefaultColors() (fg uint8, bg uint8) {
 // Fill sets the contents of the specified rectangular region to the requested
 // color. Both x and y coordinates are 1-based.
 func (cons *VesaFbConsole) Fill(x, y, width, height uint32, _, bg uint8) {
-	if cons.font == nil {
+	// Without a font, or when the framebuffer has no room for a single
+	// character cell, there is nothing that could be filled.
+	if cons.font == nil || cons.widthInChars == 0 || cons.heightInChars == 0 {
 		return
 	}
 
